@@ -2,6 +2,7 @@ SPECIFICATION HSpec
 CONSTANTS
   Creations = {1}
   MaxSet = 0
+  GivesBackOnFailure = FALSE
   CreationRewinds = FALSE
   Threads = {1, 2}
   MaxId = 3
